@@ -76,7 +76,14 @@ struct Prettifier<'a, W> {
     )>,
     lists: BTreeMap<&'a SimpleTerm<'a>, Vec<&'a SimpleTerm<'a>>>,
     graph_range: Range<usize>,
+    /// current nesting level of `[ ]` and `( )`
+    depth: usize,
 }
+
+/// Maximum nesting of `[ ]` / `( )` produced by the prettifier.
+/// Deeper blank nodes are written with a label, and described in a statement of their own.
+/// (keeps the recursion bounded, and the output below the nesting limit of the parsers)
+const MAX_DEPTH: usize = 64;
 
 type SubjectsWithType<'a> = [(
     GraphName<&'a SimpleTerm<'a>>,
@@ -115,6 +122,7 @@ impl<'a, W: Write> Prettifier<'a, W> {
             subject_types,
             lists,
             graph_range,
+            depth: 0,
         }
     }
 
@@ -145,13 +153,22 @@ impl<'a, W: Write> Prettifier<'a, W> {
     /// all its elements have the same graph name,
     /// and all subjects of that graph are contained in it.
     fn write_graph(&mut self) -> io::Result<()> {
-        for i in self.graph_range.clone() {
-            let (_, s, st) = &self.subject_types[i];
-            if *st != SubjectType::Root {
-                continue;
+        // NB: writing a tree may turn some deeply nested SubTree's into new Root's,
+        // so we iterate until no Root is left
+        loop {
+            let mut again = false;
+            for i in self.graph_range.clone() {
+                let (_, s, st) = &self.subject_types[i];
+                if *st != SubjectType::Root {
+                    continue;
+                }
+                self.write_tree(s)?;
+                self.subject_types[i].2 = SubjectType::Done;
+                again = true;
             }
-            self.write_tree(s)?;
-            self.subject_types[i].2 = SubjectType::Done;
+            if !again {
+                break;
+            }
         }
         /*
         // some blank node cycles can cause all of them to be SubTree;
@@ -323,10 +340,12 @@ impl<'a, W: Write> Prettifier<'a, W> {
         if let Some(items) = self.lists.remove(&bn) {
             self.write_bytes(b"(")?;
             self.indent();
+            self.depth += 1;
             for item in items {
                 self.write_newline()?;
                 self.write_node(item)?;
             }
+            self.depth -= 1;
             self.unindent();
             self.write_newline()?;
             self.write_bytes(b")")?;
@@ -335,9 +354,17 @@ impl<'a, W: Write> Prettifier<'a, W> {
         } else if let Some(i) = self.find_st_index(bn) {
             let (_, s, st) = self.subject_types[i];
             match st {
+                SubjectType::SubTree if self.depth >= MAX_DEPTH => {
+                    // too deep: label this node, and make it the root of its own tree
+                    self.labelled.insert(s);
+                    self.subject_types[i].2 = SubjectType::Root;
+                    write!(self.write, "_:{}", s.bnode_id().unwrap().as_str())?;
+                }
                 SubjectType::SubTree => {
                     self.write_bytes(b"[")?;
+                    self.depth += 1;
                     self.write_properties(s)?;
+                    self.depth -= 1;
                     self.write_bytes(b"]")?;
                     self.subject_types[i].2 = SubjectType::Done;
                 }
